@@ -117,5 +117,12 @@ func vIte64(c bool, a, b uint64) uint64 {
 	}
 	return b
 }
+func vIte8(c bool, a, b uint8) uint8 {
+	if c {
+		return a
+	}
+	return b
+}
+func vSetIdleHook(f func())          {}
 func vIsSymbolic(x uint64) bool        { return false }
 func vChanPending(ch interface{}) int { return 0 }
